@@ -170,6 +170,11 @@ def analyse_swu(chk, repo, w, f, sq, K, A, B, Z, sqinfo, label, order):
                         m = K.mul(K.pow(ru.c[0], al), K.pow(rv.c[0], be))
                         if K.pow(m, 2 * e + 1) != om:
                             raise Pruned("ω differs from the value computed for this constant ratio")
+                if cx.zero_status(args[1]) is not False:
+                    cx.notes.append("the denominator handed to the square-root helper may vanish on this path "
+                                    "(exceptional case Z²t⁴ + Zt² = 0 not handled)")
+                else:
+                    cx.nonzero.append(pv)
                 cx.G = (c, pu, pv)
                 return (flag, SW.gamma(cx))
             it.summaries = dict(it.summaries)
@@ -198,6 +203,8 @@ def analyse_swu(chk, repo, w, f, sq, K, A, B, Z, sqinfo, label, order):
             lift = lambda kt: SW({0: kt}, cx)
             X, Y, Zc = v
             Nr, Dr = (Nx, Dx) if exc else (N0, D0)
+            for note in cx.notes:
+                bad.append(f"{tag}: {note}")
             # u/v = g(x1) for the RFC's x1
             _c, gu, gv = cx.G
             gref = Nr ** 3 + cA * Nr * Dr * Dr + cB * Dr ** 3
@@ -411,9 +418,9 @@ def run(chk, repo, tier):
                        "K[t] (also modulo the exceptional-case condition); every feasible path's output is compared with RFC 9380's "
                        "x1 / x2, the curve E' and the sign rule. The isogeny code is walked with symbolic (x, y, z) and compared with "
                        "the rational map of the tabulated coefficients, which is checked to send E' to E.")
-    chk.rule("C10.R1", "pipeline terms and name resolution", 3)
+    chk.rule("C10.R1", "pipeline terms and name resolution; expand_message_xmd / hash_to_field as C15 requires", 3 + 10)
     chk.rule("C10.R2", "simplified SWU per path vs RFC 9380 §6.6.2 (F.2), incl. exceptional case; sqrt-of-ratio helpers sound and complete", 8 + 26)
-    chk.rule("C10.R3", "sign rule sgn0(y) = sgn0(t) on the affine root", 2 + 26)
+    chk.rule("C10.R3", "sign rule sgn0(y) = sgn0(t) on the affine root; sgn0 is RFC 9380 §4.1 (C14.R2)", 2 + 26 + 6)
     chk.rule("C10.R4", "isogeny code = rational map of the coefficient tables; the tables define maps E' → E", 4)
     chk.rule("C10.R5", "suite constants: A', B', Z as in RFC 9380 §8.8; Z non-square; exponents equal their names", 4)
     chk.not_decided += ["Fermat's little theorem in F_p and F_p² (axiom: turns the large powers into roots of unity)",
@@ -460,6 +467,24 @@ def run(chk, repo, tier):
     analyse_iso(chk, repo, w, repo.func(f"{SWUM}.iso_map_G2"), g("ISO_3_MAP_COEFFICIENTS"), F2, A2, B2, b2, "ISO_3", (3, 2, 3, 3))
     # ---- R1
     pipeline(chk, repo, w)
+    # the pipeline's first stage (expand_message_xmd / hash_to_field, C15) and the sign function (sgn0, C14.R2) are part of what
+    # hash_to_G1/G2 compute: their obligations are re-stated here so that a change there is reported for this property as well
+    from . import C15, C14
+    from ..report import SubCheck
+    sub = SubCheck()
+    err = None
+    try:
+        C15.run(sub, repo, tier)
+    except AnalysisError as e:        # obligations recorded before the analysis stopped are still re-stated
+        err = e
+    for rule, construct, key, ok, detail, where in sub.obs:
+        chk.ob("C10.R1", construct, f"hash_to_field stage [{rule}] {key}", ok, detail, where)
+    if err is not None and all(o[3] for o in sub.obs):
+        raise err
+    sub = SubCheck()
+    C14.sgn0_obligations(sub, repo, World(repo))
+    for rule, construct, key, ok, detail, where in sub.obs:
+        chk.ob("C10.R3", construct, f"sgn0 [{rule}] {key}", ok, detail, where)
     chk.note_analysed(swu_paths=npaths)
 
 
